@@ -3,6 +3,7 @@
    enumeration oracle of the driver replays them (`enumFrom order`). Driver glue, no theorems. -/
 import AriadneModel.Driver.Wire
 import AriadneModel.Model.Order
+import AriadneModel.Model.OrderResult
 import AriadneModel.Spec.Isort
 
 open Lean (Json)
@@ -62,6 +63,17 @@ def enumFrom (order : List Name) : EnumOracle := fun s =>
 def decEntry (j : Json) : Except String Entry := do
   pure ⟨← fieldStrs j "path", ← fieldBool j "isDir", ← fieldStr j "content"⟩
 
+def decTarget (j : Json) : Except String PluginTarget := do
+  match j.getObjVal? "module" with
+  | .ok ms => pure (.module (← pairs (·.getStr?) ms))
+  | .error _ =>
+    match j.getObjVal? "cls" with
+    | .ok c => pure (.cls (← c.getStr?))
+    | .error _ => pure (.refused (← fieldStr j "refused"))
+
+def encPairs (xs : List (Name × List Name)) : Json :=
+  Json.arr (xs.map fun (k, vs) => Json.arr #[Json.str k, encStrs vs]).toArray
+
 def handle (j : Json) : Except String Json := do
   let op ← fieldStr j "op"
   match op with
@@ -120,6 +132,35 @@ def handle (j : Json) : Except String Json := do
     pure (encRes (fun (o : Option FragOut) => Json.bool o.isSome) (packageFrag id x))
   | "initAll" =>
     pure (encStrs (initAll (← decImports (← j.getObjVal? "imports"))))
+  | "classBases" =>
+    -- `fragments` arrives in the order the real set was iterated; `sorted` must erase it
+    let table ← pairs (·.getStr?) (← j.getObjVal? "pascal")
+    pure (encStrs (classBases id (fun f => (lookup table f).getD f) (← fieldStr j "baseModel")
+      (← fieldStrs j "fragments") (← fieldStrsD j "extraBases")))
+  | "typenameValues" =>
+    let abstract := (j.getObjValAs? String "abstract").toOption
+    pure (encPairs (typenameValues (enumFrom (← fieldStrsD j "order")) (← fieldStrs j "typesNames") abstract (← fieldStrsD j "possible")))
+  | "typenameLiteral" => pure (encStrs (typenameLiteral (← fieldStrs j "values")))
+  | "operationFragments" =>
+    let closure ← pairs strs (← j.getObjVal? "closure")
+    pure (encRes encStrs (operationFragments id (← fieldStrs j "mixins") (← fieldStrs j "unpacked") (lookup closure)))
+  | "collectedTypes" => pure (encStrs (collectedTypes id (← fieldStrs j "collected")))
+  | "pluginsTypes" =>
+    let table ← pairs decTarget (← j.getObjVal? "resolve")
+    let resolve : String → PluginTarget := fun s => (lookup table s).getD (.refused "unresolved in the recorded table")
+    pure (match getPluginsTypes id resolve (← fieldStrs j "plugins") with
+      | .ok cs => Json.mkObj [("ok", encStrs cs)]
+      | .error m => Json.mkObj [("err", "PluginImportError"), ("msg", m)])
+  | "runHook" =>
+    -- the harness's recording plugins append their own class to the object: explorer + manager composed
+    let table ← pairs decTarget (← j.getObjVal? "resolve")
+    let resolve : String → PluginTarget := fun s => (lookup table s).getD (.refused "unresolved in the recorded table")
+    pure (match runHook id resolve (fun c (x : List String) => x ++ [c]) (← fieldStrs j "plugins") (← fieldStrsD j "start") with
+      | .ok cs => Json.mkObj [("ok", encStrs cs)]
+      | .error m => Json.mkObj [("err", "PluginImportError"), ("msg", m)])
+  | "applyHooks" =>
+    -- hooks of the harness's recording plugins: each appends its own tag
+    pure (encStrs (applyHooks (fun c (x : List String) => x ++ [c]) (← fieldStrs j "plugins") (← fieldStrsD j "start")))
   | _ => throw s!"unknown op {op}"
 
 def main : IO Unit := Ariadne.Wire.loop handle
